@@ -205,7 +205,7 @@ CLAIMED.update({
             "call once and dump once; boolean option spellings convert correctly.  Found defect F9 (repaired: b5774cf).",
             "File equality follows from equal kwargs plus determinism (C09, not decided).", TECH + "; data-flow", "4/C34"),
     "C35": ("Validation layer of date()/variational_gamma/inside_outside/maximization with solver-chosen parameters (symbolic "
-            "reals, NaN/inf/None, small integer sets, presence flags) and marker engines: only ValueError/NotImplementedError, "
+            "reals, NaN/inf/None, small integer sets, presence flags; inputs with mutations, with sites but no mutation, without sites) and marker engines: only ValueError/NotImplementedError, "
             "rejected before the engine, every validity condition implied on returning paths, result shape; rescaling "
             "kernels with zero counts (known finding F3).  Found defects F1, F2, F4, F14 (repaired).",
             "Bounded: one small input; engines are markers; EP kernel assertions are C05/C21; discrete-method rate "
@@ -243,7 +243,8 @@ CLAIMED.update({
     "C15": ("SpansBySamples on 9 skeletons (incl. missing samples, disjoint nodes, changing roots) with symbolic breakpoints: "
             "every (samples in tree, samples below node) span equals the total length of the trees with that pair, spans sum "
             "to the node span; mixture_expect_and_var / get_mixture_prior_params pass exactly the span-weighted mixture "
-            "mean/variance of symbolic per-(T,k) priors to func_approx.",
+            "mean/variance of symbolic per-(T,k) priors to func_approx; with real span records (the cache of small "
+            "mixtures live) every node gets func_approx of its own mixture.",
             "tskit tree traversal is real; only Tree.interval/span are symbolic; no unary nodes.", TECH, "4/C15"),
     "C16": ("fill_priors / make_discretised_prior with symbolic prior parameters, coalescent grid and 1-2 epoch sizes, "
             "uninterpreted monotone cdfs: grid = to_natural(coalescent grid) (= sorted user grid when explicit), rows 0 at "
